@@ -24,6 +24,32 @@ def fallback_sees_lines() -> bool:
     return not is_equivalent(a.expr, b.expr)
 
 
+def common_cross_only() -> bool:
+    """does get_common_expr_positions only pair an operand of the first half with one of the second half?  (q, q, p, r) -> None"""
+    from mypy.nodes import NameExpr
+
+    from refurb.checks.common import get_common_expr_positions
+
+    def nm(name: str) -> NameExpr:
+        n = NameExpr(name)
+        n.fullname = "m." + name
+        return n
+
+    got = get_common_expr_positions(nm("q"), nm("q"), nm("p"), nm("r"))
+    sanity = [
+        ((nm("p"), nm("q"), nm("p"), nm("r")), (0, 2)),
+        ((nm("p"), nm("q"), nm("r"), nm("q")), (1, 3)),
+        ((nm("p"), nm("q"), nm("q"), nm("p")), (0, 3)),  # first operand first: (0, 3) comes before (1, 2) in both search orders
+        ((nm("p"), nm("q"), nm("r"), nm("s")), None),
+    ]
+    for args, want in sanity:
+        if get_common_expr_positions(*args) != want:
+            raise RuntimeError(f"get_common_expr_positions({', '.join(a.name for a in args)}) is no longer {want}")
+    if got not in (None, (0, 1)):
+        raise RuntimeError(f"get_common_expr_positions(q, q, p, r) = {got}: not a search order the model knows")
+    return got is None
+
+
 @extract.register("EquivCfg")
 def gen_equiv_cfg() -> str:
     from mypy.nodes import NameExpr
@@ -53,8 +79,8 @@ def gen_equiv_cfg() -> str:
         + "import RefurbVerif.Model.Equiv\n"
         + "namespace RefurbVerif.Generated\n\n"
         + "/-- by execution of refurb.checks.common.is_equivalent on synthetic NameExpr nodes: two nodes with different `name`\n"
-        + "    and equal `fullname` are equivalent iff `cmpName` is false -/\n"
-        + "def equivCfg : RefurbVerif.Equiv.Cfg := { cmpName := %s }\n\n" % lbool(not same_obj_other_name)
+        + "    and equal `fullname` are equivalent iff `cmpName` is false; get_common_expr_positions(q, q, p, r) is None iff `crossOnly` -/\n"
+        + "def equivCfg : RefurbVerif.Equiv.Cfg := { cmpName := %s, crossOnly := %s }\n\n" % (lbool(not same_obj_other_name), lbool(common_cross_only()))
         + "/-- the text the fallback compares still carries mypy's line tags (`LambdaExpr:14(`); when false the harness strips\n"
         + "    them from the `sc` it feeds the model (informational on the Lean side) -/\n"
         + "def equivFallbackSeesLines : Bool := %s\n" % lbool(fallback_sees_lines())
